@@ -474,6 +474,12 @@ func l3signed(it *vItem, lo, hi int64) (int64, bool) {
 	return 0, false
 }
 
+// l3typeErr: what the library reports when a CBOR item cannot go into the Go type of its
+// destination (wrong major type, integer out of the type's range)
+func l3typeErr() error {
+	return &cbor.UnmarshalTypeError{CBORType: "item", GoType: "field"}
+}
+
 func l3decodeLeaf(it *vItem, fp interface{}) error {
 	null := it.kind == ikNull
 	switch p := fp.(type) {
@@ -482,7 +488,10 @@ func l3decodeLeaf(it *vItem, fp interface{}) error {
 			*p = nil
 			return nil
 		}
-		if it.kind != ikTstr || !utf8.ValidString(it.s) {
+		if it.kind != ikTstr {
+			return l3typeErr()
+		}
+		if !utf8.ValidString(it.s) {
 			return errL3 // the decoder rejects text strings that are not valid UTF-8
 		}
 		s := it.s
@@ -491,7 +500,10 @@ func l3decodeLeaf(it *vItem, fp interface{}) error {
 		if null {
 			return nil
 		}
-		if it.kind != ikTstr || !utf8.ValidString(it.s) {
+		if it.kind != ikTstr {
+			return l3typeErr()
+		}
+		if !utf8.ValidString(it.s) {
 			return errL3
 		}
 		*p = it.s
@@ -502,7 +514,7 @@ func l3decodeLeaf(it *vItem, fp interface{}) error {
 		}
 		v, ok := l3signed(it, -1<<31, 1<<31-1)
 		if !ok {
-			return errL3
+			return l3typeErr()
 		}
 		x := int32(v)
 		*p = &x
@@ -513,7 +525,7 @@ func l3decodeLeaf(it *vItem, fp interface{}) error {
 		}
 		v, ok := l3signed(it, -1<<63, 1<<63-1)
 		if !ok {
-			return errL3
+			return l3typeErr()
 		}
 		*p = &v
 	case **uint16:
@@ -522,7 +534,7 @@ func l3decodeLeaf(it *vItem, fp interface{}) error {
 			return nil
 		}
 		if it.kind != ikUint || it.u > 0xffff {
-			return errL3
+			return l3typeErr()
 		}
 		x := uint16(it.u)
 		*p = &x
@@ -532,7 +544,7 @@ func l3decodeLeaf(it *vItem, fp interface{}) error {
 			return nil
 		}
 		if it.kind != ikUint {
-			return errL3
+			return l3typeErr()
 		}
 		x := uint(it.u)
 		*p = &x
@@ -543,7 +555,7 @@ func l3decodeLeaf(it *vItem, fp interface{}) error {
 		}
 		b, ok := l3bytes(it)
 		if !ok {
-			return errL3
+			return l3typeErr()
 		}
 		*p = &b
 	case **eat.UEID:
@@ -553,7 +565,7 @@ func l3decodeLeaf(it *vItem, fp interface{}) error {
 		}
 		b, ok := l3bytes(it)
 		if !ok {
-			return errL3
+			return l3typeErr()
 		}
 		u := eat.UEID(b)
 		*p = &u
@@ -598,7 +610,7 @@ func l3decodeLeaf(it *vItem, fp interface{}) error {
 		}
 		b, ok := l3bytes(it)
 		if !ok {
-			return errL3
+			return l3typeErr()
 		}
 		*p = b
 	case *int32:
@@ -607,7 +619,7 @@ func l3decodeLeaf(it *vItem, fp interface{}) error {
 		}
 		v, ok := l3signed(it, -1<<31, 1<<31-1)
 		if !ok {
-			return errL3
+			return l3typeErr()
 		}
 		*p = int32(v)
 	case *int64:
@@ -616,7 +628,7 @@ func l3decodeLeaf(it *vItem, fp interface{}) error {
 		}
 		v, ok := l3signed(it, -1<<63, 1<<63-1)
 		if !ok {
-			return errL3
+			return l3typeErr()
 		}
 		*p = v
 	case *uint16:
@@ -624,7 +636,7 @@ func l3decodeLeaf(it *vItem, fp interface{}) error {
 			return nil
 		}
 		if it.kind != ikUint || it.u > 0xffff {
-			return errL3
+			return l3typeErr()
 		}
 		*p = uint16(it.u)
 	case *ISwComponents:
